@@ -58,7 +58,7 @@ def base_scenario(rng, **o):
     ftimes_sim = fsim if not rev else fsim[::-1]
     sc["ftimes"] = [sim2t(sc, s) for s in ftimes_sim]          # ascending real time
     nfr = len(fsim)
-    ncut = o.get("ncut", rng.randrange(0, min(3, nfr - 1) + 1))
+    ncut = min(o.get("ncut", rng.randrange(0, min(3, nfr - 1) + 1)), nfr - 1)      # (a requested split cannot exceed the number of frames)
     sc["cuts"] = sorted(rng.sample(range(1, nfr), ncut)) if ncut else []
     sc["fm"] = o.get("fm", dict(a=rng.randrange(0, 6), b=rng.randrange(0, 6), c=rng.randrange(0, 30), d=rng.randrange(0, 20), e=rng.randrange(0, 3)))
     sc["pack"] = rng.random() < 0.2
